@@ -54,11 +54,15 @@ let lit_of_int (l : int) : lit = (n_of_int (abs l), l > 0)
 let show_ref (r : ref) = Printf.sprintf "%s@%d" (if r.neg then "~" else "") (int_of_n r.idx)
 let raw (r : ref) = 2 * int_of_n r.idx + (if r.neg then 1 else 0)
 
-let rec show_btok = function
-  | BTop -> "\xe2\x8a\xa4"
-  | BBot -> "\xe2\x8a\xa5"
-  | BRef r -> show_ref r
-  | BNode (r, v, hi, lo) -> Printf.sprintf "%s:(x%d, %s, %s)" (show_ref r) (int_of_n v) (show_btok hi) (show_btok lo)
+(* the bracket text is the token sequence BddBracketText.flatten (proved uniquely readable), one string per token *)
+let show_ttok = function
+  | TTop -> "\xe2\x8a\xa4"
+  | TBot -> "\xe2\x8a\xa5"
+  | TRef r -> show_ref r
+  | TOpen (r, v) -> Printf.sprintf "%s:(x%d, " (show_ref r) (int_of_n v)
+  | TComma -> ", "
+  | TClose -> ")"
+let show_btok (t : btok) = String.concat "" (List.map show_ttok (flatten t))
 
 let show_path (p : path) = "[" ^ String.concat "," (List.map (fun (v, b) -> string_of_int (if b then int_of_n v else - (int_of_n v))) p) ^ "]"
 
